@@ -3,6 +3,7 @@ is evaluated inside Coq over primitive floats (lib/ExprF.v) and compared with wh
 graphslam code returns for the same operands."""
 import json
 import math
+from fractions import Fraction
 import os
 import random
 import sys
@@ -182,7 +183,29 @@ def decode(ints):
 TOL = 2.0 ** -40
 
 
-def close(py, cq):
+def boxplus_conditioning(meta):
+    """SE(3) boxplus computes w = sqrt(1 - |d_rot|^2) with |d_rot| from np.linalg.norm (whose summation order is numpy's business):
+    near |d_rot| = 1 a last-bit difference in |d_rot|^2 is amplified by 1 / (2 sqrt(1 - |d_rot|^2)), and AT the boundary the branch
+    `norm > 1.0` itself is decided by that bit.  -> (skip, extra relative tolerance)"""
+    try:
+        K, meth, okind = meta[0], meta[1], meta[2]
+        if K != 'SE3' or meth not in ('add', 'iadd') or okind != 'arr6':
+            return False, 0.0
+        d = [float(x) for x in meta[4][3:6]]
+        gap = abs(1.0 - (d[0] * d[0] + d[1] * d[1] + d[2] * d[2]))
+    except Exception:  # noqa
+        return False, 0.0
+    eps = 2.0 ** -52
+    if sum(Fraction(x) ** 2 for x in d) == 1:
+        return False, 0.0          # exactly unit (e.g. (0,-1,0)): the norm is exact in any summation order, compare strictly
+    if gap <= 16 * eps:
+        return True, 0.0
+    if gap < 1e-3:
+        return False, 8 * eps / math.sqrt(gap)
+    return False, 0.0
+
+
+def close(py, cq, extra=0.0):
     """cq = (value, majorant). Returns (ok, exact)."""
     v, m = cq
     if py != py or v != v:
@@ -191,10 +214,10 @@ def close(py, cq):
         return True, True
     if math.isinf(py) or math.isinf(v):
         return False, False
-    return abs(py - v) <= TOL * max(m, 1e-300), False
+    return abs(py - v) <= (TOL + extra) * max(m, 1e-300), False
 
 
-def compare(py, cq):
+def compare(py, cq, extra=0.0):
     """-> (agree, exact_count, total_count, why)"""
     if cq[0] == 'unsupported':
         return False, 0, 0, 'model has no applicable path / unsupported'
@@ -218,7 +241,7 @@ def compare(py, cq):
         return False, 0, 1, 'implementation returned %s' % (py[1],)
     ex = 0
     for i, (a, b) in enumerate(zip(pv, cv)):
-        ok, e = close(a, b)
+        ok, e = close(a, b, extra)
         if not ok:
             return False, ex, len(pv), 'component %d: impl %r model %r (majorant %r)' % (i, a, b[0], b[1])
         ex += e
@@ -328,7 +351,11 @@ def run(summ, seed, per_def, corpus=None):
             continue
         for (dn, env, trig, py, meta), ints in zip(chunk, parts):
             cq = decode(ints)
-            ok, ex, tot, why = compare(py, cq)
+            skip, extra = boxplus_conditioning(meta)
+            if skip:
+                res['boundary_skipped'] = res.get('boundary_skipped', 0) + 1     # |d_rot| = 1 to the last bits: not comparable
+                continue
+            ok, ex, tot, why = compare(py, cq, extra)
             res['evaluations'] += 1
             res['exact_components'] += ex
             res['components'] += tot
